@@ -6,6 +6,7 @@
 From Coq Require Import List Bool Arith NArith ZArith String.
 From J2M.Model Require Import Base Emit Cli.
 From J2M.Gen Require Cli.
+From J2M.Proofs Require Import CliProps.
 Import ListNotations.
 Theorem C16_defaults_link : Gen.Cli.cli_defaults = documented_defaults.
 Proof. reflexivity. Qed.
@@ -18,3 +19,75 @@ Example C16_iter_examples :
   /\ iter_json_file (JObj [(s_ "d", JObj [(s_ "i", JArr [JObj []])])]) (s_ "d.i") = Some [JObj []]
   /\ iter_json_file (JObj [(s_ "d", JInt 5%Z)]) (s_ "d") = None.
 Proof. vm_compute. repeat split; reflexivity. Qed.
+
+(* ---- sample assembly (Proofs/CliProps.v) ---- *)
+Theorem C16_iter_list :
+  forall l : list json, iter_json_file (JArr l) DASH = Some l.
+Proof. exact CliProps.iter_list. Qed.
+
+Theorem C16_iter_obj :
+  forall o : list (str * json), iter_json_file (JObj o) DASH = Some (JObj o :: nil).
+Proof. exact CliProps.iter_obj. Qed.
+
+Theorem C16_iter_scalar :
+  forall d : json, is_container d = false -> iter_json_file d DASH = None /\ iter_json_file d nil = None.
+Proof. exact CliProps.iter_scalar. Qed.
+
+Theorem C16_dict_lookup_dotted :
+  forall (f : nat) (d : json) (k : str) (rest : list N),
+       nodot k = true ->
+       dict_lookup (S f) d (k ++ (DOT :: nil) ++ rest) =
+       match jget d k with
+       | Some d' => dict_lookup f d' rest
+       | None => None
+       end.
+Proof. exact CliProps.dict_lookup_dotted. Qed.
+
+Theorem C16_dict_lookup_plain :
+  forall (f : nat) (d : json) (k : str),
+       nodot k = true -> k <> nil -> k <> DASH -> dict_lookup (S f) d k = jget d k.
+Proof. exact CliProps.dict_lookup_plain. Qed.
+
+Theorem C16_dict_lookup_fuel :
+  forall (f1 f2 : nat) (d : json) (lk : list N),
+       List.length lk < f1 -> List.length lk < f2 -> dict_lookup f1 d lk = dict_lookup f2 d lk.
+Proof. exact CliProps.dict_lookup_fuel. Qed.
+
+Theorem C16_assemble_split_docs :
+  forall (d : list (str * list json)) (n lk : str) (d1 d2 : list json) (r : list marg),
+       assemble_from d ({| a_name := n; a_lookup := lk; a_docs := d1 ++ d2 |} :: r) =
+       assemble_from d
+         ({| a_name := n; a_lookup := lk; a_docs := d1 |}
+          :: {| a_name := n; a_lookup := lk; a_docs := d2 |} :: r).
+Proof. exact CliProps.assemble_split_docs. Qed.
+
+Theorem C16_assemble_split_list :
+  forall (d : list (str * list json)) (pre : list marg) (n : str) (docs1 docs2 x y : list json)
+         (r : list marg),
+       assemble_from d
+         (pre ++ {| a_name := n; a_lookup := DASH; a_docs := docs1 ++ JArr (x ++ y) :: docs2 |} :: r) =
+       assemble_from d
+         (pre ++ {| a_name := n; a_lookup := DASH; a_docs := docs1 ++ JArr x :: JArr y :: docs2 |} :: r).
+Proof. exact CliProps.assemble_split_list. Qed.
+
+Theorem C16_assemble_order :
+  forall (models lists : list marg) (res : list (str * list json)) (n : str),
+       assemble models lists = Some res ->
+       lookup n res =
+       (if touched n models || touched n lists
+        then Some (samples_of n models ++ samples_of n lists)
+        else None).
+Proof. exact CliProps.assemble_order. Qed.
+
+Theorem C16_assemble_failure :
+  forall models lists : list marg,
+       assemble models lists = None <->
+       (exists (a : marg) (doc : json),
+          In a (models ++ lists) /\ In doc (a_docs a) /\ iter_json_file doc (a_lookup a) = None).
+Proof. exact CliProps.assemble_failure. Qed.
+
+Theorem C16_assemble_keys :
+  forall (models lists : list marg) (res : list (str * list json)),
+       assemble models lists = Some res -> map fst res = keys_from nil (models ++ lists).
+Proof. exact CliProps.assemble_keys. Qed.
+
